@@ -41,6 +41,43 @@ func zzParseTotal(n int) {
 	}
 }
 
+// zzParseTotalWide: the same obligations for sources of n symbolic runes over
+// every code point 0..0x10FFFF, entered at Parse with the rune slice ParseSrc
+// would have built ([]rune(src) is the only thing ParseSrc adds).
+func zzParseTotalWide(n int) {
+	zzWide = true
+	runes := zzRunes(n)
+	zzWide = false
+	var err error
+	panicked := false
+	func() {
+		defer func() {
+			if r := recover(); r != nil {
+				if _, ok := r.(zz.AssumeFailed); ok {
+					panic(r)
+				}
+				panicked = true
+			}
+		}()
+		_, err = Parse(&Scanner{src: append([]rune{}, runes...)})
+	}()
+	zz.Assert(!panicked, "C15.P2.parse-no-panic")
+	if panicked {
+		return
+	}
+	if err != nil {
+		pe, ok := err.(*Error)
+		zz.Assert(ok, "C15.P2.error-is-parser-error")
+		if ok {
+			zz.Assert(zzPosOK(runes, 0, pe.Pos.Line, pe.Pos.Column), "C15.P2.error-position-in-input")
+		}
+	}
+}
+
+func ZZ_C15_P2_parse_wide_n1() { zzParseTotalWide(1) }
+func ZZ_C15_P2_parse_wide_n2() { zzParseTotalWide(2) }
+func ZZ_C15_P2_parse_wide_n3() { zzParseTotalWide(3) }
+
 func ZZ_C15_P2_parse_n1() { zzParseTotal(1) }
 func ZZ_C15_P2_parse_n2() { zzParseTotal(2) }
 func ZZ_C15_P2_parse_n3() { zzParseTotal(3) }
